@@ -235,7 +235,13 @@ def sec_blocks(ck, U):
         r["intervals"], r["amplitudes"], r["xs"], r["impl"]))
     N = ck.n(80, 800)
     modes = ["sorted", "unsorted", "touching", "overlapping"]
-    cases = [("unsorted", [(Fraction(5), Fraction(6)), (Fraction(1), Fraction(2))], [Fraction(3), Fraction(4)])]
+    F_ = Fraction
+    cases = [("unsorted", [(F_(5), F_(6)), (F_(1), F_(2))], [F_(3), F_(4)]),
+             # sort-key ties (blocks sorts by tuple(interval), stably): equal intervals keep their listed order
+             ("overlapping", [(F_(1), F_(3)), (F_(1), F_(3))], [F_(2), F_(5)]),
+             ("overlapping", [(F_(1), F_(3)), (F_(1), F_(2)), (F_(0), F_(4))], [F_(2), F_(5), F_(7)]),
+             ("overlapping", [(F_(2), F_(3)), (F_(1), F_(10))], [F_(5), F_(2)]),
+             ("unsorted", [(F_(2), F_(2)), (F_(2), F_(4)), (F_(0), F_(2))], [F_(9), F_(1), F_(3)])]
     for i in range(N):
         mode = modes[i % 4]
         ivs = gen_blocks(rng, mode)
@@ -677,7 +683,12 @@ def sec_contrasts(ck, FM):
         cons = {"c_" + "_".join(names[s] for s in sel): FM.Formula([U.terms[s] for s in sel])}
         if U.nfac:
             cons["fac"] = fac
-        D2, C = f.design(U.data, contrasts=cons)
+        try:
+            D2, C = f.design(U.data, contrasts=cons)
+        except Exception as e:  # noqa
+            ck.fail("contrast/raises", "design(..., contrasts=%s) raised %s: %s" % (sorted(cons), type(e).__name__, e),
+                    {"rows": U.rows, "fields": U.num_names + U.fac_names, "design_columns": colnames, "contrasts": sorted(cons)})
+            continue
         done += 1
         ck.count(("contrast", tuple(map(tuple, U.rows)), tuple(sel)), bucket="contrast:cols=%d" % D.shape[1])
         for key, cf in cons.items():
@@ -765,7 +776,12 @@ def sec_event_block_design(ck, U, DS, FM):
             levels[0] = 3 - levels[0]
         spec = FM.make_recarray(list(zip([fl(o) for o in onsets], levels)), ("time", "cond"))
         t = np.arange(0, 12, 0.5)
-        X, c = DS.event_design(spec, t, hrfs=(h,))
+        try:
+            X, c = DS.event_design(spec, t, hrfs=(h,))
+        except Exception as e:  # noqa
+            ck.fail("event_design/raises", "event_design raised %s: %s (onsets %s, levels %s)" % (type(e).__name__, e, onsets, levels),
+                    {"onsets": [str(o) for o in onsets], "levels": levels, "kernel": K.describe()})
+            continue
         ck.count(("event_design", tuple(onsets), tuple(levels)), bucket="event_design")
         X = np.asarray(X).reshape(len(t), -1)
         ulev = sorted(set(levels))
@@ -787,7 +803,12 @@ def sec_event_block_design(ck, U, DS, FM):
         t = np.arange(0, 16, 1.0)
         dt, pad = 0.25, 1.0
         spec = FM.make_recarray([(float(a), float(b)) for a, b in ivs], ("start", "end"))
-        X, c = DS.block_design(spec, t, hrfs=(h,), convolution_padding=pad, convolution_dt=dt, hrf_interval=(0., 4.))
+        try:
+            X, c = DS.block_design(spec, t, hrfs=(h,), convolution_padding=pad, convolution_dt=dt, hrf_interval=(0., 4.))
+        except Exception as e:  # noqa
+            ck.fail("block_design/raises", "block_design raised %s: %s (blocks %s)" % (type(e).__name__, e, ivs),
+                    {"blocks": ivs, "kernel": K.describe()})
+            continue
         X = np.asarray(X).reshape(len(t), -1)[:, 0]
         lo, hi = ivs[0][0] - pad, ivs[-1][1] + pad
         g1 = np.arange(lo, hi, dt)
